@@ -23,7 +23,11 @@
 (*   Locked Built Connect Sent Flushed Close Unlock Deq     hooks          *)
 (*            Connect carries the collector that answered (addr); Sent and *)
 (*            Flushed carry tmo = the error is an expired write deadline   *)
-(*            (the peer stalled: it is alive but did not read)             *)
+(*            (the peer stalled: it is alive but did not read) and early = *)
+(*            that deadline expired sooner than Timeout after the send     *)
+(*            began (no stall explains that: rejected).  Call and Enq carry*)
+(*            olics = the license arguments of the per-send options in     *)
+(*            their order; lic must be the one they put into effect        *)
 (*   Enq             s id ... ok     harness, queue mode (interval)        *)
 (*   ListenerDown/ListenerUp  addr   harness: that collector's listener    *)
 (*   Config   via lic qreq srv (the collectors now configured)             *)
@@ -116,6 +120,21 @@ Delivered(c, data) == Cardinality({j \in 1..Len(data) : Arrives(c, data, j)})
 \* stalled; else it is what the collector says it did to the connection
 KindOf(c, tmo) == IF tmo THEN "stalled" ELSE IF Rec(c).cut = "none" THEN "closed" ELSE Rec(c).cut
 Tmo(e) == Has(e, "tmo") /\ e.tmo
+\* `early`: the expired deadline was reported sooner than the client's Timeout after the send in progress began.  The
+\* environment's stall ("the peer did not read until the deadline of this write expired") needs the deadline's whole
+\* duration to pass: an early expiry is not explained by any peer -- the client ran the write under a deadline that is
+\* not the one of this send (left over from an earlier write, or computed from the wrong time).
+Early(e) == Has(e, "early") /\ e.early
+\* (an error that is only the writer's STICKY error repeated -- a write into a writer that failed before, a flush of
+\* the dead writer -- is no new expiry: `early` is judged only where a socket write of this send reports the deadline)
+TmoOK(e) == Tmo(e) => e.err
+NotEarly(e) == ~(Tmo(e) /\ Early(e))
+
+\* the license argument of a send is the license its per-send options put into effect: the LAST WithLicense of the list
+\* (olics = the arguments of the WithLicense options in the order they were passed, "-" = empty), whatever other
+\* options stand before, between or after them; none, or an empty one, is no override
+SendLic(s) == IF s = <<>> THEN NoLic ELSE s[Len(s)]
+LicArgOK(e) == Has(e, "olics") => e.lic = SendLic(e.olics)
 
 \* observed header fields f against the frame header h of the send
 HdrOK(f, h) == /\ f.net = <<10, 0>>
@@ -147,7 +166,7 @@ PushAs(c, data, d, tmo) ==
 Quiet == UNCHANGED <<proph, lics, nst, wbytes, todo, todoErr, todoTmo>>
 
 \* ------------------------------------------------------------- events
-TraceCall == Step("Call") /\ Call(Ev.s, PackOf(Ev)) /\ Quiet
+TraceCall == Step("Call") /\ LicArgOK(Ev) /\ Call(Ev.s, PackOf(Ev)) /\ Quiet
 
 TraceLocked == Step("Locked") /\ Ev.s \in Sender /\ cur[Ev.s].id = Ev.id /\ Lock(Ev.s) /\ Quiet
 
@@ -176,7 +195,7 @@ AfterWrite(L, B) ==
   ELSE IF L - avail > BufSize THEN 0 ELSE L - avail
 
 TraceSent ==
-  /\ Step("Sent") /\ Ev.a \in Actor /\ (Tmo(Ev) => Ev.err)
+  /\ Step("Sent") /\ Ev.a \in Actor /\ TmoOK(Ev)
   /\ LET a == Ev.a
          L == cur[a].body.plen + HdrLen IN
      IF pc[a] = "senderr"
@@ -184,7 +203,8 @@ TraceSent ==
             /\ Ev.err /\ conn = 0 /\ CloseOnSendError(a) /\ Quiet
        ELSE /\ pc[a] = "built" /\ BufWrite(a)
             /\ IF werr THEN Ev.err /\ Quiet
-               ELSE /\ todo' = Spills(L, wbytes, Len(wbuf))
+               ELSE /\ NotEarly(Ev)
+                    /\ todo' = Spills(L, wbytes, Len(wbuf))
                     /\ todoErr' = Ev.err /\ todoTmo' = (Ev.err /\ Tmo(Ev))
                     /\ Ev.err => todo' # <<>>          \* a healthy writer with room cannot fail
                     /\ wbytes' = AfterWrite(L, wbytes)
@@ -213,12 +233,13 @@ TraceClose ==
   /\ Quiet
 
 TraceFlushed ==
-  /\ Step("Flushed") /\ Ev.a \in Actor /\ ~todoErr /\ (Tmo(Ev) => Ev.err)
+  /\ Step("Flushed") /\ Ev.a \in Actor /\ ~todoErr /\ TmoOK(Ev)
   /\ LET a == Ev.a IN
      IF pc[a] = "written"
        THEN LET d == IF wbuf = <<>> THEN 0 ELSE Delivered(conn, wbuf)
                 ok == ~Ev.err
                 tmo == Ev.err /\ Tmo(Ev) IN
+            /\ NotEarly(Ev)
             /\ Flush(a, d, ok, IF wbuf # <<>> /\ net[conn] = "up" /\ (d < Len(wbuf) \/ ~ok) THEN KindOf(conn, tmo) ELSE "closed")
             /\ IF wbuf = <<>> THEN UNCHANGED nst ELSE PushAs(conn, wbuf, d, tmo)
             /\ wbytes' = 0
@@ -233,7 +254,7 @@ TraceRet == /\ Step("Ret") /\ Ev.s \in Sender /\ cur[Ev.s].id = Ev.id
             /\ Ev.err = (res[Ev.s] = "err")
             /\ Return(Ev.s) /\ Quiet
 
-TraceEnq == /\ Step("Enq")
+TraceEnq == /\ Step("Enq") /\ LicArgOK(Ev)
             /\ IF Ev.ok THEN Enqueue(Ev.s, PackOf(Ev)) ELSE EnqueueFull(Ev.s, PackOf(Ev))
             /\ Quiet
 
